@@ -1020,6 +1020,7 @@ func checkC10Digest(r *Report, p *Prog) {
 		}
 	}
 	n := 0
+	shaCond := B.False
 	for _, lf := range leaves {
 		lf.cnd = B.And(lf.cnd, useCond)
 		if lf.cnd == B.False {
@@ -1027,6 +1028,9 @@ func checkC10Digest(r *Report, p *Prog) {
 		}
 		n++
 		ap := lf.ctx.AP(lf.v)
+		if strings.Contains(ap, "xmlenc.SHA1") {
+			shaCond = B.Or(shaCond, lf.cnd)
+		}
 		switch {
 		case strings.Contains(ap, "xmlenc.SHA1"):
 			okS := elNil != "" && B.Implies(lf.cnd, B.Var(elNil))
@@ -1040,6 +1044,12 @@ func checkC10Digest(r *Report, p *Prog) {
 	}
 	if n < 2 {
 		r.Bad(rule, p.FnName(fn)+": digest selection", p.Pos(fn.Pos()), fmt.Sprintf("%d values of the digest method (expected the default and the looked-up one)", n))
+	}
+	// and the converse: an element that names no digest is decrypted with SHA-1 whatever the decrypter value was built
+	// with (the registered decrypters carry the digest they encrypt with; the W3C default for an absent DigestMethod is
+	// SHA-1, and that is what a peer that omits the element wrapped the key with)
+	if elNil != "" {
+		r.Check(B.Implies(B.And(B.Var(elNil), useCond), shaCond), rule, p.FnName(fn)+": an element without DigestMethod is decrypted with SHA-1", p.Pos(fn.Pos()), "DigestMethod element == nil => the digest is SHA-1", "an element that names no digest method can reach the key decrypter with another digest than SHA-1 (the value the decrypter was configured with): a key wrapped by a peer that relies on the default is refused")
 	}
 	if lookOK != "" {
 		miss := B.Not(B.Var(lookOK))
